@@ -396,19 +396,20 @@ class RegularCoords(Coords):
         The coordinates for the first point.
     '''
     def __init__(self, delta, dims, zero=None):
-        if np.isscalar(dims):
+        # Scalars, including zero-dimensional arrays, are multiplexed over all dimensions.
+        if np.ndim(dims) == 0:
             self.dims = np.array([dims]).astype('int')
         else:
             self.dims = np.array(dims).astype('int')
 
-        if np.isscalar(delta):
+        if np.ndim(delta) == 0:
             self.delta = np.array([delta] * len(self.dims))
         else:
             self.delta = np.array(delta)
 
         if zero is None:
             self.zero = np.zeros(len(self.dims))
-        elif np.isscalar(zero):
+        elif np.ndim(zero) == 0:
             self.zero = np.array([zero] * len(self.dims))
         else:
             self.zero = np.array(zero)
